@@ -1,18 +1,143 @@
-"""C17 - names and ARNs round-trip."""
+"""C17 - names and ARNs round-trip and link executions to their state machine."""
 import vf; vf.setup_paths()
 from vf.api import condition
-from asl_workflow_engine import arn as arnmod
+from vf import stubs
+from vf.stubs import pick
+from asl_workflow_engine import arn as arnmod, state_engine as se
+from asl_workflow_engine import rest_api_asyncio as ra, rest_api as rb
 
 PROPERTY = "C17"
+ASSUMPTIONS = [
+    "names are symbolic strings (any character CrossHair's string theory offers, incl. newline, ':' '/' '.' and control characters) constrained only by the repository's own valid_name; accounts are digit strings, regions/partitions from a pool",
+    "engine derivation sites: names over the alphabet {a . - _ : / space newline} up to 2 characters (ARNs are formatted into log messages, which realises symbolic strings, so the alphabet must be finite)",
+    "engine derivation sites are run for real (notify/start_execution, end_execution EXPRESS branch, update_execution_history recovery branch, check_for_expired_branch_results) with recording dispatchers and a constant json shim",
+]
+REGIONS = ["local", "eu-west-1", ""]
+ALPHA = "a.-_:/ \n"      # ARN-significant, forbidden and harmless characters (engine-site conditions: the ARN is formatted into log text, which realises it)
+PARTS = ["aws", "aws-cn"]
 
-@condition(timeout={"quick": 60, "thorough": 300}, bounds={"quick": {"N": 3}, "thorough": {"N": 4}},
-           functions=["arn.create_arn", "arn.parse_arn"])
-def arn_roundtrip_probe(name: str, account: str) -> bool:
+
+class _JsonShim:
+    @staticmethod
+    def dumps(o, *a, **k):
+        return "<json>"
+    loads = staticmethod(__import__("json").loads)
+
+
+def norm(s):
+    return "".join([c for c in s])
+
+
+@condition(timeout={"quick": 120, "thorough": 600}, bounds={"quick": {"N": 3}, "thorough": {"N": 4}},
+           functions=["arn.create_arn", "arn.parse_arn", "rest_api_asyncio.valid_name", "rest_api.valid_name"],
+           outside=["names longer than the tier bound (the ARN parser is length-oblivious: it only looks for the first ':' x5 and the first '/')"])
+def name_arn_roundtrip(name: str, acct: str, ri: int, pi: int, rt: int, which: int) -> bool:
     """
-    requires: len(name) <= @N@ and len(account) <= 2
-    requires: ":" not in name and "/" not in name and ":" not in account and "/" not in account
+    requires: 1 <= len(name) <= @N@ and len(acct) <= 2 and all(c in "0123456789" for c in acct)
+    requires: 0 <= ri < 3 and 0 <= pi < 2 and 0 <= rt < 2 and 0 <= which < 2
     ensures: _
     """
-    a = arnmod.create_arn(service="states", region="local", account=account, resource_type="stateMachine", resource=name)
+    name = norm(name); acct = norm(acct)
+    valid = (ra.valid_name, rb.valid_name)[which]
+    if not valid(name):
+        return True                      # refused names cannot break the round trip
+    rtype = pick(["stateMachine", "execution"], rt)
+    parts = dict(arn="arn", partition=pick(PARTS, pi), service="states", region=pick(REGIONS, ri), account=acct,
+                 resource_type=rtype, resource=name)
+    a = arnmod.create_arn(**parts)
     p = arnmod.parse_arn(a)
-    return p["resource"] == name and p["resource_type"] == "stateMachine" and p["account"] == account and arnmod.create_arn(p) == a
+    return p == parts and arnmod.create_arn(p) == a and arnmod.create_arn(dict(p)) == a
+
+
+def _arns(m, e, acct="0123456789", region="local"):
+    sm = arnmod.create_arn(service="states", region=region, account=acct, resource_type="stateMachine", resource=m)
+    ex = arnmod.create_arn(service="states", region=region, account=acct, resource_type="execution", resource=m + ":" + e)
+    return sm, ex
+
+
+def _engine_for(sm_arn, sm_type):
+    asl = {"StartAt": "P", "States": {"P": {"Type": "Pass", "End": True}}}
+    eng, log = stubs.make_engine(asl, sm_type)
+    se.json = _JsonShim
+    rec = dict(eng.asl_store[stubs.SM_ARN]); rec["stateMachineArn"] = sm_arn
+    eng.asl_store.clear()
+    eng.asl_store[sm_arn] = rec
+    looked = []
+    orig = eng.asl_store.get_cached_view
+
+    class Store(type(eng.asl_store)):
+        def get_cached_view(self, key, default=None):
+            looked.append(key)
+            return self.get(key, default)
+    s = Store(eng.asl_store)
+    eng.asl_store = s
+    return eng, log, looked
+
+
+@condition(timeout={"quick": 240, "thorough": 900}, bounds={"quick": {"N": 2, "M": 1}, "thorough": {"N": 2, "M": 2}},
+           functions=["StateEngine.start_execution (ARN minting from machine ARN + name)", "end_execution (EXPRESS: re-derivation from the execution ARN)", "broadcast_notification (account/region from the execution ARN)"])
+def mint_and_rederive(m: str, e: str, express: bool, ri: int) -> bool:
+    """
+    requires: 1 <= len(m) <= @N@ and 1 <= len(e) <= @M@ and 0 <= ri < 2
+    requires: all(c in ALPHA for c in m) and all(c in ALPHA for c in e)
+    ensures: _
+    """
+    m = norm(m); e = norm(e)
+    if not (ra.valid_name(m) and ra.valid_name(e)):
+        return True
+    region = pick(["local", "eu-west-1"], ri)
+    sm_arn, ex_arn = _arns(m, e, region=region)
+    eng, log, looked = _engine_for(sm_arn, "EXPRESS" if express else "STANDARD")
+    ev = {"data": {"x": 1}, "context": {"StateMachine": {"Id": sm_arn}, "Execution": {"Name": e}}}
+    eng.notify(ev, "id1")
+    bcs = [l for l in log if l[0] == "broadcast"]
+    if len(bcs) != 2:
+        return False
+    for _, subject, cw in bcs:
+        d = cw["detail"]
+        if d["executionArn"] != ex_arn or d["stateMachineArn"] != sm_arn or d["name"] != e:
+            return False
+        if cw["account"] != "0123456789" or cw["region"] != region or cw["resources"] != [ex_arn]:
+            return False
+        if subject != sm_arn + "." + d["status"]:
+            return False
+    if not express:
+        r = eng.executions.get(ex_arn)
+        if r is None or r["stateMachineArn"] != sm_arn or r["name"] != e:
+            return False
+    return True
+
+
+@condition(timeout={"quick": 240, "thorough": 900}, bounds={"quick": {"N": 2, "M": 1}, "thorough": {"N": 2, "M": 2}},
+           functions=["StateEngine.update_execution_history (recovery branch after restart)", "check_for_expired_branch_results (time-out back-stop)"])
+def recovery_and_backstop(m: str, e: str, site: int) -> bool:
+    """
+    requires: 1 <= len(m) <= @N@ and 1 <= len(e) <= @M@ and 0 <= site < 2
+    requires: all(c in ALPHA for c in m) and all(c in ALPHA for c in e)
+    ensures: _
+    """
+    m = norm(m); e = norm(e)
+    if not (ra.valid_name(m) and ra.valid_name(e)):
+        return True
+    sm_arn, ex_arn = _arns(m, e)
+    eng, log, looked = _engine_for(sm_arn, "STANDARD")
+    if site == 0:
+        # engine restarted: the record is gone, history update must re-create it with derived fields
+        eng.update_execution_history(eng.asl_store[sm_arn], ex_arn, "PassStateEntered", {"input": "{}", "name": "P"})
+        r = eng.executions.get(ex_arn)
+        return r is not None and r["stateMachineArn"] == sm_arn and r["name"] == e and r["executionArn"] == ex_arn
+    # back-stop: an expired branch_metadata entry makes the engine look the machine up by the derived ARN
+    ctx = {"Tracer": {}, "Execution": {"Id": ex_arn, "Name": e, "Input": {}, "StartTime": stubs.T0_ISO},
+           "State": {"EnteredTime": stubs.T0_ISO, "Name": "P"}, "StateMachine": {"Id": sm_arn}}
+    bm = se.BranchMetadata(ctx, 10)
+    eng.branch_metadata[ex_arn] = bm
+    eng.executions[ex_arn] = {"executionArn": ex_arn, "input": "{}", "name": e, "output": None, "startDate": stubs.CLOCK.now,
+                              "stateMachineArn": sm_arn, "status": "RUNNING", "stopDate": None}
+    eng.execution_history[ex_arn] = []
+    stubs.CLOCK.now = 1_700_000_100.0
+    try:
+        eng.check_for_expired_branch_results()
+    finally:
+        stubs.CLOCK.now = 1_700_000_000.0
+    bcs = [l for l in log if l[0] == "broadcast"]
+    return looked[-1:] == [sm_arn] and len(bcs) == 1 and bcs[0][2]["detail"]["stateMachineArn"] == sm_arn and bcs[0][2]["detail"]["status"] == "FAILED"
